@@ -216,8 +216,23 @@ func genOpaque(r *rng.R) nbwire.Val {
 		// values the conversion has to refuse: NaN, a decimal64 precision beyond 18 (regressions of
 		// two repaired crashes; left out while the tree under test still panics on them)
 		load := r.Pick([]string{"f7fc00000", "fffc00000", "d5.70", "d-7.19", "d1.64", "d3.258"})
-		if v, panicked := opaqueVal(load); !panicked {
-			return v
+		// (a value the value layer panics on is sent all the same: request data that crashes the
+		// conversion crashes the handler, which is what C12's monitor is there to report)
+		return OpaqueVal(load)
+	}
+	if r.Chance(1, 5) {
+		// leaf-lists with a member of a kind the conversion does not know (none, nil, double_val, nested
+		// list, any, proto_bytes, json_ietf), alone or after supported members; other top-level oneof kinds
+		mem := []string{"n", "D", "l", "a", "p", "j"}
+		switch r.Intn(4) {
+		case 0:
+			return OpaqueVal("lm" + r.Pick(mem))
+		case 1:
+			return OpaqueVal("lms" + r.Pick(mem))
+		case 2:
+			return OpaqueVal("lm" + r.Pick(mem) + r.Pick(mem))
+		default:
+			return OpaqueVal(r.Pick([]string{"D", "P", "Y", "L"}))
 		}
 	}
 	switch r.Intn(7) {
@@ -795,8 +810,26 @@ func GenGet(r *rng.R, spec nbenv.Spec, tables map[string][]ModelPath, allowNilOv
 	case 1:
 		req.Prefix = GenGetPath(r, Pool, r.Pick([]string{"t1", "c1", "", "c2"}))
 		tags = append(tags, "get-prefix-path")
+	case 2:
+		// the prefix alone spells the whole path of a leaf the directly created configuration c1 stores
+		// (/v0 /v1 /v2), or nearly (a shorter / longer name of the same length class, a one-character
+		// wildcard); the request has no path, a path without elements, or one more element
+		req.Prefix = &nbwire.PathMsg{Target: r.Pick([]string{"c1", "c1", "c1", "c2", ""}),
+			Elem: []*pb.PathElem{{Name: r.Pick([]string{"v0", "v1", "v2", "v9", "v", "v00", "v*", "*", "?0"})}}}
+		switch r.Intn(4) {
+		case 0:
+			req.Paths = nil
+		case 1:
+			req.Paths = []*nbwire.PathMsg{{}}
+		case 2:
+			req.Paths = []*nbwire.PathMsg{{Target: r.Pick([]string{"", "c1"})}, {Elem: []*pb.PathElem{{Name: "x"}}}}
+		}
+		if r.Chance(2, 3) {
+			req.Enc = 2
+		}
+		tags = append(tags, "get-prefix-whole-leaf")
 	}
-	if n == 0 {
+	if len(req.Paths) == 0 {
 		tags = append(tags, "get-no-paths")
 	}
 	var used []string
